@@ -84,6 +84,22 @@ func (c Cfg) String() string {
 
 func (c Cfg) compiler() *compiler.Compiler {
 	k := compiler.New()
+	// the order in which the options are requested is immaterial: for odd indent widths the source map is requested
+	// first, and the semicolon option is given before the indent option
+	mapFirst := c.Map && c.Pretty && c.Spaces%2 == 1
+	if mapFirst {
+		k = k.WithSourceMap()
+	}
+	if c.Pretty && mapFirst {
+		var o []compiler.PrettyPrintOption
+		o = append(o, compiler.WithSemi(!c.NoSemi))
+		if c.Tabs {
+			o = append(o, compiler.WithTabs())
+		} else {
+			o = append(o, compiler.WithSpaces(c.Spaces))
+		}
+		return k.WithPrettyPrint(o...)
+	}
 	if c.Pretty {
 		var o []compiler.PrettyPrintOption
 		if c.Tabs {
